@@ -41,6 +41,7 @@ func Small(m *testproto.TestAllTypes, name string) {
 func Subsets(n int) []int {
 	var out []int
 	if vt.Bound("allOptionSubsets", 0, 1) == 1 {
+		vt.Unwind(1<<n + 8)
 		for s := 0; s < 1<<n; s++ {
 			out = append(out, s)
 		}
